@@ -48,7 +48,24 @@ def simulate(L, K, lines):
     """-> list (one entry per step) of dict: 'slots' {s: AVec or None}, 'res', 'op'.
     Raises Invalid if a documented precondition is violated."""
     slots = {}
+    eslots = {}       # element slots: dict(t=tuple, aid=int, null=bool)
     out = []
+
+    def scribbled(t, ctor=False):
+        """moved-from instrumented objects are filled with 0xEE: by the move ASSIGNMENT of TTrk,
+        by the move CONSTRUCTOR of TTrk and TTrkC"""
+        tys = (lay.TTRK, lay.TTRKC) if ctor else (lay.TTRK,)
+        return tuple(tuple((238,) * p.size for _ in f) if p.ty in tys else f for f, p in zip(t, L))
+
+    def shape(t):
+        return [len(f) for f in t]
+
+    def need_elem(s, live=True):
+        e = eslots.get(s)
+        if e is None or (live and e["null"]):
+            raise Invalid("element slot %d not usable" % s)
+        return e
+
     for line in lines:
         t = line.split()
         op, a = t[0], [int(x) for x in t[1:]]
@@ -242,6 +259,88 @@ def simulate(L, K, lines):
             v = slots.get(a[0])
             if v is None or not (0 <= a[1] <= len(v.elems)) or not (0 <= a[2] <= len(v.elems)):
                 raise Invalid("iterator position")
+        elif op == "efromref":
+            v = slots.get(a[1])
+            if v is None or not (0 <= a[2] < len(v.elems)) or getattr(v, "moved_elems", False):
+                raise Invalid("element from a missing reference")
+            t = v.elems[a[2]]
+            eslots[a[0]] = {"t": t, "aid": max(a[4], 0), "null": False}
+            if a[3] == 2:
+                v.elems[a[2]] = scribbled(t, ctor=True)
+            touched = [a[1]]
+        elif op in ("ecopy", "ecopyalloc"):
+            e = need_elem(a[1])
+            eslots[a[0]] = {"t": e["t"], "aid": soccc(K, e["aid"]) if op == "ecopy" else a[2], "null": False}
+        elif op == "emove":
+            e = need_elem(a[1], live=False)
+            eslots[a[0]] = dict(e)
+            eslots[a[1]] = {"t": None, "aid": e["aid"], "null": True}
+        elif op == "emovealloc":
+            e = need_elem(a[1])
+            if K[3] or a[2] == e["aid"]:
+                eslots[a[0]] = dict(e)
+                eslots[a[1]] = {"t": None, "aid": e["aid"], "null": True}
+            else:
+                eslots[a[0]] = {"t": e["t"], "aid": a[2], "null": False}
+                eslots[a[1]] = {"t": scribbled(e["t"], ctor=True), "aid": e["aid"], "null": False}
+        elif op == "ecopyassign":
+            if a[0] != a[1]:
+                d, e = need_elem(a[0], live=False), need_elem(a[1])
+                fixed_path = not lay.has_varying(L) and (not K[0] or K[3])
+                if fixed_path and not d["null"] and shape(d["t"]) != shape(e["t"]):
+                    raise Invalid("field-wise element assignment needs a target of equal sizes")
+                eslots[a[0]] = {"t": e["t"], "aid": e["aid"] if K[0] else d["aid"], "null": False}
+        elif op == "emoveassign":
+            if a[0] != a[1]:
+                d, e = need_elem(a[0], live=False), need_elem(a[1], live=False)
+                if K[3] or K[1] or d["aid"] == e["aid"]:
+                    eslots[a[0]] = {"t": e["t"], "aid": e["aid"] if K[1] else d["aid"], "null": e["null"]}
+                    eslots[a[1]] = {"t": None, "aid": e["aid"], "null": True}
+                else:
+                    if e["null"]:
+                        raise Invalid("element-wise move from a moved-from element")
+                    if not lay.has_varying(L) and not d["null"] and shape(d["t"]) != shape(e["t"]):
+                        raise Invalid("field-wise element assignment needs a target of equal sizes")
+                    eslots[a[0]] = {"t": e["t"], "aid": d["aid"], "null": False}
+                    eslots[a[1]] = {"t": scribbled(e["t"], ctor=lay.has_varying(L) or d["null"]), "aid": e["aid"], "null": False}
+        elif op == "eswap":
+            if a[0] != a[1]:
+                x, y = need_elem(a[0], live=False), need_elem(a[1], live=False)
+                if not K[2] and not alloc_eq(K, x["aid"], y["aid"]):
+                    raise Invalid("swap of elements with unequal non-propagating allocators")
+                nx, ny = dict(y), dict(x)
+                if not K[2]:
+                    nx["aid"], ny["aid"] = x["aid"], y["aid"]
+                eslots[a[0]], eslots[a[1]] = nx, ny
+        elif op == "eassignref":
+            e, v = need_elem(a[0]), slots.get(a[1])
+            if v is None or not (0 <= a[2] < len(v.elems)) or shape(v.elems[a[2]]) != shape(e["t"]):
+                raise Invalid("element = reference of different sizes")
+            t = v.elems[a[2]]
+            e["t"] = t
+            if a[3] == 2:
+                v.elems[a[2]] = scribbled(t)
+            touched = [a[1]]
+        elif op == "refassigne":
+            v, e = slots.get(a[0]), need_elem(a[2])
+            if v is None or not (0 <= a[1] < len(v.elems)) or shape(v.elems[a[1]]) != shape(e["t"]):
+                raise Invalid("reference = element of different sizes")
+            v.elems[a[1]] = e["t"]
+            if a[3] == 2:
+                e["t"] = scribbled(e["t"])
+            touched = [a[0]]
+        elif op == "edestroy":
+            need_elem(a[0], live=False)
+            eslots[a[0]] = None
+        elif op == "eobserve":
+            pass
+        elif op == "ecmpe":
+            need_elem(a[0]); need_elem(a[1])
+        elif op == "ecmpr":
+            need_elem(a[0])
+            v = slots.get(a[1])
+            if v is None or not (0 <= a[2] < len(v.elems)):
+                raise Invalid("comparison with a missing reference")
         elif op == "cmpvec":
             if slots.get(a[0]) is None or slots.get(a[1]) is None:
                 raise Invalid("comparison of a destroyed vector")
@@ -256,7 +355,8 @@ def simulate(L, K, lines):
         else:
             raise Invalid("unknown op " + op)
         out.append({"op": op, "args": a, "res": res, "touched": touched,
-                    "slots": {s: (v.copy() if v is not None else None) for s, v in slots.items()}})
+                    "slots": {s: (v.copy() if v is not None else None) for s, v in slots.items()},
+                    "eslots": {s: (dict(e) if e is not None else None) for s, e in eslots.items()}})
     return out
 
 
@@ -282,7 +382,8 @@ def parse_obs(lines):
         elif t[0] == "RES":
             cur["res"] = int(t[1])
         elif t[0] == "CMP":
-            cur["cmp"] = [int(x) for x in t[1:]]
+            cur.setdefault("cmps", []).append([int(x) for x in t[1:]])
+            cur["cmp"] = cur["cmps"][0]
         elif t[0] == "ITER":
             cur["iter"] = [int(x) for x in t[1:]]
         elif t[0] == "VEC":
@@ -290,6 +391,14 @@ def parse_obs(lines):
             vec = {"size": int(t[2]), "cap": int(t[3]), "cons": int(t[4]), "aid": int(t[5]), "bid": int(t[6]),
                    "dbeg": int(t[7]), "dend": int(t[8]), "fixed": [int(x) for x in t[f + 1:]], "elems": []}
             cur["vecs"][int(t[1])] = vec
+        elif t[0] == "ELEM":
+            elem = {"aid": int(t[2]), "bid": int(t[3]), "units": int(t[4]), "fields": []}
+            cur.setdefault("elems", {})[int(t[1])] = elem
+            vec = None
+        elif t[0] == "ENULL":
+            cur.setdefault("enull", []).append(int(t[1]))
+        elif t[0] == "EGONE":
+            cur.setdefault("egone", []).append(int(t[1]))
         elif t[0] == "E":
             elem = {"off": int(t[2]), "fields": []}
             if vec is not None:
@@ -329,6 +438,9 @@ MARKER_PROPS = {
     "PATHERR const-iterator": {"C11"},
     "PATHERR iterator-conversion": {"C11"},
     "UNSUPPORTED": {"C11", "C12"},
+    "PATHERR element-access-paths": {"C12", "C11"},
+    "PATHERR element-structured-bindings": {"C12", "C11"},
+    "PATHERR element-outside-own-block": {"C12", "C02"},
 }
 
 
@@ -434,6 +546,45 @@ def oracle_C11(L, K, lines, steps, spec):
                    ii + 1, ii, ii, n, 0]
             if st["iter"] != exp:
                 v.append("step %d iter %d %d: iterator expressions give %r, index arithmetic gives %r" % (i, ii, j, st["iter"], exp))
+    return v[:5]
+
+
+def oracle_C12(L, K, lines, steps, spec):
+    """elements hold exactly the spec's tuple in a block of their own allocator, vectors are
+    untouched except where the operation says so; comparisons with elements are by content"""
+    v = content_mismatches(L, steps, spec)
+    for i, (st, sp) in enumerate(zip(steps, spec)):
+        for s, oe in st.get("elems", {}).items():
+            ae = sp["eslots"].get(s)
+            if ae is None or ae["null"]:
+                v.append("step %d %s: element slot %d is live but should be %s" % (i, sp["op"], s, "destroyed" if ae is None else "moved-from"))
+                continue
+            for k, ((off, cnt, hx), af) in enumerate(zip(oe["fields"], ae["t"])):
+                if cnt != len(af) or hx != hexof(af):
+                    v.append("step %d %s: element %d field %d reads %s x%d, expected %s x%d" % (i, sp["op"], s, k, hx or "-", cnt, hexof(af) or "-", len(af)))
+                    break
+            if not alloc_eq(K, oe["aid"], ae["aid"]):
+                v.append("step %d %s: element %d get_allocator() is %d, expected %d" % (i, sp["op"], s, oe["aid"], ae["aid"]))
+            # its block comes from its own allocator and from nobody else's vector
+            for vs, ov in st["vecs"].items():
+                if ov["bid"] == oe["bid"]:
+                    v.append("step %d %s: element %d shares block %d with vector %d" % (i, sp["op"], s, oe["bid"], vs))
+        for s in st.get("enull", []):
+            ae = sp["eslots"].get(s)
+            if ae is not None and not ae["null"]:
+                v.append("step %d %s: element %d lost its memory" % (i, sp["op"], s))
+        if sp["op"] in ("ecmpe", "ecmpr") and "cmps" in st:
+            a = sp["args"]
+            kx = elem_key(L, sp["eslots"][a[0]]["t"])
+            ky = elem_key(L, sp["eslots"][a[1]]["t"]) if sp["op"] == "ecmpe" else elem_key(L, sp["slots"][a[1]].elems[a[2]])
+            for n, (c, (p, q)) in enumerate(zip(st["cmps"], [(kx, ky), (ky, kx)])):
+                eq, ne, lt, le, gt, ge = c
+                if bool(eq) != (p == q) or eq == ne:
+                    v.append("step %d %s: operator== is %d for operands whose contents are %s" % (i, sp["op"], eq, "equal" if p == q else "different"))
+                if (lt and gt) or (lt and eq) or le != (not gt) or ge != (not lt) or (p == q and (lt or gt)):
+                    v.append("step %d %s: relational operators inconsistent: %r" % (i, sp["op"], c))
+            if len(st["cmps"]) == 2 and (st["cmps"][0][2] != st["cmps"][1][4] or st["cmps"][0][4] != st["cmps"][1][2]):
+                v.append("step %d ecmpr: element < reference and reference > element disagree" % i)
     return v[:5]
 
 
